@@ -646,7 +646,7 @@ pub type D36x2 = [D36; 2];
 shape! { D37 ("struct", 0) { xs: [U8x4], ys: [U16x3], #[tagval(5)] zs: [Option<[i32; 2]>], ws: [Nullable<[D36; 2]>], k: [u8] } }
 shape! { D38 ("struct", 1) { e: [U8x0], m: [U8x2x2], f: [F32x2], s: [SVec<[i8; 2], 3>], b: [Boolx3], t: [D36x2], w: [Option<Nullable<I64x2>>] } }
 // bit flags: harness-local `bitflags!` types with undeclared bits (u8 … u64) and real generated bitmaps
-shape! { D39 ("struct", 0) { a: [FA], b: [Option<FB>], c: [Nullable<FC>], #[tagval(3)] d: [Option<Nullable<FD>>], e: [Nullable<FA>], f: [FD], h: [FAx2] } }
+shape! { D39 ("struct", 0) { a: [FA], b: [Option<FB>], c: [Nullable<FC>], #[tagval(30)] d: [Option<Nullable<FD>>], e: [Nullable<FA>], f: [FD], h: [FAx2] } }
 shape! { D40 ("struct", 0) { a: [OnOffControlBitmap], b: [Nullable<OptionsBitmap>], c: [Option<OnOffFeature>], d: [Nullable<OnOffFeature>], e: [SVec<FB, 3>] } }
 
 macro_rules! registry {
@@ -682,6 +682,11 @@ registry!(
     D01, D02, D03, D04, D05, D06, D07, D08, D09, D10, D11, D12, D13, D14, D15, D16, D17, D18, D19, D20, D21, D22, D23, D24, D25, D26,
     D27, D28, D29, D30, D31, E02, E03, P01, P02, P03, D32, D33, D34, D35, D36, D37, D38, D39, D40
 );
+
+/// the two shapes whose `tagval` collides with an implicit number on purpose (no round-trip claim); every other
+/// shape must be a well-formed declaration — the driver checks this expectation against `Ty.wfb` (op `wf`), so that
+/// an accidental collision in a new shape cannot silently switch the oracle off
+pub const ILL_FORMED: &[&str] = &["@D18", "@D19"];
 
 /// names of the shapes using the constructs added in round 4 (signed, floats, `[T; N]`, flags): drawn more often
 pub const NEW_NAMES: &[&str] = &["@D32", "@D33", "@D34", "@D35", "@D36", "@D37", "@D38", "@D39", "@D40"];
